@@ -682,6 +682,7 @@ def run(res, tier):
     res.rule("SC-10", "a guarded operation called on what is left after a take of its caller does not demand the caller's own companion query again")
     res.rule("SC-11", "column-count arguments (declared names containing `col` / `rank`) of size queries, bytes_of and takes are not integer literals >= 2")
     res.rule("SC-12", "an operation dispatching between scratch-consuming routines on quantities its query also receives is mirrored by a query deciding on the same quantities at the top level")
+    res.rule("SC-13", "a per-thread length handed to split_mut contains no bare LWE-sized term (not a multiple of the scratch alignment)")
     res.rule("SC-7", "at a size-query call site, a usize argument that the caller knows under the name of one of the query's declared parameters (trait declaration names; the caller's own parameters take the names of its trait declaration) sits in that parameter's position")
     res.rule("SC-6", "a temporary created from a layout literal and handed to a nested operation is declared, in the companion, by the nested query evaluated on a literal with equal fields under the parameter correspondence")
     res.rule("SC-5", "only the scratch carver builds scratch views / typed slices from raw bytes")
@@ -710,6 +711,8 @@ def run(res, tier):
         res.floor("SC-11", "column-count arguments of size queries / takes", n11, 150)
         n12 = sc12(p, res, pairs)
         res.floor("SC-12", "dispatching operations", n12, 1)
+        n13 = sc13(p, res)
+        res.floor("SC-13", "split_mut sites", n13, 2)
         n7 = sc7(p, res)
         res.floor("SC-7", "size-query call sites with role-named scalar arguments", n7, 20)
         n6 = sc6(p, res, pairs)
@@ -761,6 +764,67 @@ def sc10(p, res, pairs):
                         "can never satisfy the nested guard" % (f.pretty, comp.name, rem, g.name, guard_of[same[0]].name), site=f.where(t["l"]))
             else:
                 res.ok("SC-10", {"op": f.pretty, "callee": p.fns[tg[0]].name, "callee_guard": guard_of[tg[0]].name} if n % 10 == 1 else None)
+    return n
+
+
+# ------------------------------------------------------------------ SC-13
+UNALIGNED_KINDS = ("lwe", "lwe_plaintext")
+
+
+def sc13(p, res):
+    """per-thread windows: `scratch.split_mut(threads, len)` carves `threads` windows of `len` bytes and re-aligns after each one, so a `len` that is not a multiple of the scratch
+    alignment loses up to 63 bytes per thread. Sizes of ring objects are multiples of 64 for n >= 8; LWE objects (n_lwe + 1 coefficients) are not - a per-thread size must not contain
+    a bare LWE term (it has to be rounded with next_multiple_of / align_up)"""
+    n = 0
+    for f in sorted(p.lib_fns(), key=lambda x: x.uid):
+        if not f.uid.startswith(("poulpy_core", "poulpy_bin_fhe", "poulpy_ckks")):
+            continue
+        sites = [(bi, t) for bi, t in f.calls() if (f.callee_def(t) or {}).get("n") == "split_mut" and len(t["a"]) == 3]
+        if not sites:
+            continue
+        flow = Flow(f, transparent=SCR_T)
+        for bi, t in sites:
+            n += 1
+            # the query the per-thread length comes from
+            q = None
+            for r in flow.op_roots(t["a"][2]):
+                if r[0] == "call":
+                    tq = f.blocks[r[1]]["t"]
+                    if (f.callee_def(tq) or {}).get("n", "").endswith("_tmp_bytes"):
+                        tg = [u for u in p.targets(f, tq) if p.fn(u) is not None and p.fn(u).blocks]
+                        # follow forwarders (delegate -> default)
+                        seen = set()
+                        while tg and tg[0] not in seen:
+                            seen.add(tg[0])
+                            g2 = p.fn(tg[0])
+                            cs = [(b2, t2) for b2, t2 in g2.calls()]
+                            if len(cs) == 1 and (g2.callee_def(cs[0][1]) or {}).get("n", "").endswith(("_tmp_bytes", "_tmp_bytes_default")):
+                                nx = [u for u in p.targets(g2, cs[0][1]) if p.fn(u) is not None and p.fn(u).blocks]
+                                if nx:
+                                    tg = nx
+                                    continue
+                            break
+                        q = p.fn(tg[0]) if tg else None
+            if q is None:
+                res.undec("SC-13", "%s: per-thread length of split_mut does not come from a size query" % f.pretty)
+                continue
+            sup = supply_of(p, q, {})
+            if sup is None:
+                res.undec("SC-13", "%s: %s not evaluable" % (f.pretty, q.name))
+                continue
+            bare = set()
+            for conds, monos, pol in sup:
+                for m in monos:
+                    for term in m:
+                        for a in term:
+                            if isinstance(a, tuple) and a and a[0] == "sz" and a[1] in UNALIGNED_KINDS:
+                                bare.add(a[1])
+            if bare:
+                res.bad("SC-13", f.pretty, "unaligned-per-thread-size:%s:%s" % (q.name, ",".join(sorted(bare))),
+                        "%s hands split_mut a per-thread length from %s, which adds the raw size of %s (not a multiple of 64): each window is re-aligned, so `threads * len` bytes "
+                        "are not enough for two or more threads" % (f.pretty, q.name, "/".join(sorted(bare))), site=f.where(t["l"]))
+            else:
+                res.ok("SC-13", {"op": f.pretty, "per_thread_query": q.name})
     return n
 
 
